@@ -100,7 +100,9 @@ class _SimTime:
         self._loop = loop
 
     def time(self):
-        return self._loop.time()
+        # an epoch-like value: code that compares time.time() with a zero-initialised "last check" must see what it
+        # sees in a real process (the first check is always due)
+        return 1_900_000_000.0 + self._loop.time()
 
     def __getattr__(self, name):
         import time as _t
